@@ -22,3 +22,8 @@ def run(ctx, rep):
     more2.rule_arg_names(mod, rep, lambda f: re.match(r"p[sdcz]gssv$|p[sdcz]gstrf", f.name) is not None, floor=1)
     from ..rules import more3
     more3.rule_kernel_base(mod, rep)
+    from ..rules import more4
+    more4.rule_complex_nonzero(mod, rep)
+    more4.rule_row_block(mod, rep)
+    from ..rules import more4
+    more4.rule_marker_kind(mod, rep)
